@@ -12,14 +12,24 @@ from mk_dyn_templates import locals_of
 FNS = [('fmt', 'source/postcard-schema/src/schema/fmt.rs', ['is_prim', 'fmt_owned_dmt_to_buf', 'discover_tys']),
        ('dynser', 'source/postcard-dyn/src/ser.rs', ['to_stdvec_dyn', 'right', 'from']),
        ('dynde', 'source/postcard-dyn/src/de.rs', ['from_slice_dyn', 'right', 'take_one']),
+       ('error', 'source/postcard/src/error.rs', ['@impl serde::ser::Error for Error']),
+       ('key', 'source/postcard-schema/src/key/mod.rs', ['for_path', 'from_bytes', 'to_bytes', 'const_cmp', 'for_owned_schema_path']),
        ('derive_ms', 'source/postcard-derive/src/max_size.rs', ['do_derive_max_size', 'add_trait_bounds', 'max_size_sum', 'sum_fields']),
        ('derive_schema', 'source/postcard-derive/src/schema.rs', ['do_derive_schema', 'new', 'generate_type', 'generate_struct', 'generate_variants', 'add_trait_bounds'])]
 
 
 def fn_template(text, name):
-    sig, body = find_fn(text, name)
-    toks = [t[1] for t in tokenize(body)]
-    loc = locals_of(toks) | set(params_of(sig))
+    if name.startswith('@'):
+        # a region: from the marker to the end of the file
+        body = text[text.index(name[1:]):]
+        toks = [t[1] for t in tokenize(body)]
+        loc = locals_of(toks)
+    else:
+        sig, body = find_fn(text, name)
+        toks = [t[1] for t in tokenize(body)]
+        loc = locals_of(toks) | set(params_of(sig))
+    from translate import RUST_KEYWORDS
+    loc = loc - RUST_KEYWORDS
     out, n = [], 0
     for t in toks:
         if t in loc:
